@@ -122,9 +122,10 @@ pub fn case_canonical(va: &dyn VariantApi, s: &[u8], st: &CaseStats) -> Result<(
             Some(Prefix::Empty) => false,
             None => s.len() == v.len_str(),
         };
-        let rest: &[u8] = if prefixed && s.len() >= 2 { &s[2..] } else { s };
-        let mut canon = b"T1".to_vec();
-        canon.extend(rest.iter().map(|c| c.to_ascii_uppercase()));
+        // a string read as prefixed is its own form as a whole (its first two characters must be
+        // the prefix, not merely be skipped); a bare one gets the prefix prepended
+        let mut canon = if prefixed { Vec::new() } else { b"T1".to_vec() };
+        canon.extend(s.iter().map(|c| c.to_ascii_uppercase()));
         let mut buf = vec![0u8; v.len_str()];
         h.store_str(&mut buf, Prefix::WithVersion).map_err(|e| format!("store failed {:?}", e))?;
         if buf != canon {
